@@ -27,6 +27,18 @@ CONSTRUCTS = {
     "p1": "{x} P1 = RtV;",
     "p2": "{x} P2 = 1;",
     "p3": "{x} P3 = RsV & 1;",
+    "anew": "{x} RxV = RxV + HEX_REG_ALIAS_LC0_NEW;",
+    "anew2": "{x} if (HEX_REG_ALIAS_USR_NEW & 1) {{ RxV = 2; }}",
+    "aread": "{x} RxV = RxV + HEX_REG_ALIAS_LR;",
+    "awrite": "{x} HEX_REG_ALIAS_SA0 = RsV;",
+    "ptn": "{x} RxV = RxV + PtN;",
+    "ntn": "{x} mem_store_u16(RsV, NtN);",
+    "pe": "{x} PeV = 1;",
+    "px": "{x} PxV = PxV & RsV;",
+    "tern": "{x} RxV = (RsV > 0) ? RtV : 2;",
+    "loop": "{x} for (i = 0; i < 2; i++) {{ RxV = RxV + i; }}",
+    "call": "{x} RxV = clz32(RxV);",
+    "cancel": "{x} if (PvV & 1) {{ STORE_SLOT_CANCELLED(pkt, slot); }}",
     "plain": "{x} RxV = RxV + RtV;",
     "usr": "{x} set_usr_field(bundle, HEX_REG_FIELD_USR_OVF, 1);",
 }
